@@ -220,7 +220,8 @@ func createFilesInTar(info *nfpm.Info, tw *tar.Writer) ([]MtreeEntry, int64, err
 			if err != nil {
 				return nil, 0, err
 			}
-			defer src.Close() // nolint: errcheck
+			// closed as soon as it is copied: a deferred close would keep every
+			// file of the payload open until the whole tar is written
 
 			header := &tar.Header{
 				Name:     content.Destination,
@@ -246,6 +247,7 @@ func createFilesInTar(info *nfpm.Info, tw *tar.Writer) ([]MtreeEntry, int64, err
 
 			err = tw.WriteHeader(header)
 			if err != nil {
+				src.Close() // nolint: errcheck,gosec
 				return nil, 0, err
 			}
 
@@ -255,6 +257,7 @@ func createFilesInTar(info *nfpm.Info, tw *tar.Writer) ([]MtreeEntry, int64, err
 			w := io.MultiWriter(tw, sha256Hash, md5Hash)
 
 			_, err = io.Copy(w, src)
+			src.Close() // nolint: errcheck,gosec
 			if err != nil {
 				return nil, 0, err
 			}
